@@ -136,8 +136,12 @@ func setKey(s []string) string { c := append([]string{}, s...); sort.Strings(c);
 
 // one step of each kind against a real session; returns the observed decision
 func quotaStep(ss *stepSession, a, x string) (fwd bool, err error) {
-	if a == "REQ" {
-		outs, err := ss.do(&mocrelay.ClientReqMsg{SubscriptionID: x, ReqFilters: []*mocrelay.ReqFilter{{}}}, func(m mocrelay.ServerMsg) bool {
+	if a == "REQ" || a == "REQX" {
+		filters := []*mocrelay.ReqFilter{{}}
+		if a == "REQX" { // three filters: refused by max_filters = 2 of the NIP-11 chain
+			filters = []*mocrelay.ReqFilter{{}, {}, {}}
+		}
+		outs, err := ss.do(&mocrelay.ClientReqMsg{SubscriptionID: x, ReqFilters: filters}, func(m mocrelay.ServerMsg) bool {
 			switch m := m.(type) {
 			case *mocrelay.ServerEOSEMsg:
 				return m.SubscriptionID == x
@@ -242,7 +246,7 @@ func C18(run *core.Run) {
 					return mocrelay.Middleware(mocrelay.NewMaxSubscriptionsMiddleware(n))(echoHandler{conc})
 				},
 				func() mocrelay.Handler {
-					return mocrelay.BuildMiddlewareFromNIP11(&mocrelay.NIP11{Limitation: &mocrelay.NIP11Limitation{MaxSubscriptions: n}})(echoHandler{conc})
+					return mocrelay.BuildMiddlewareFromNIP11(&mocrelay.NIP11{Limitation: &mocrelay.NIP11Limitation{MaxSubscriptions: n, MaxFilters: 2, MaxLimit: 100}})(echoHandler{conc})
 				},
 			} {
 				h := mk() // one middleware value shared by all concurrent sessions
@@ -263,10 +267,11 @@ func C18(run *core.Run) {
 				} else {
 					// the NIP-11 chain: a seeded sample of the histories
 					r := run.Rand(fmt.Sprint("c18-nip", n))
+					nipActions := append(append([]string{}, actions...), "REQX a", "REQX b", "REQX c", "REQX d")
 					for i := 0; i < 300; i++ {
 						var p []string
 						for k := 0; k < depth+2; k++ {
-							p = append(p, actions[r.Intn(len(actions))])
+							p = append(p, nipActions[r.Intn(len(nipActions))])
 						}
 						hist = append(hist, p)
 					}
